@@ -837,4 +837,6 @@ def parts(tier):
     ]
     for fn in EXTRA_PARTS:
         ret.extend(fn(tier))
+    from vt.props import c18_files   # parts that need generated RP66V1 / LIS files
+    ret.extend(c18_files.parts(tier))
     return ret
